@@ -7,7 +7,7 @@
     *every* admissible view, i.e. every permutation of the indexed samples that
     is sorted by duration ([C05_admissible_meaning]). *)
 From Coq Require Import Permutation Sorted.
-From DivanV Require Import Base.Res Model.Stats Proofs.Stats Proofs.StatsProv Proofs.StatsSb Proofs.StatsStore Proofs.StatsAlloc.
+From DivanV Require Import Base.Res Model.Stats Proofs.Stats Proofs.StatsProv Proofs.StatsSb Proofs.StatsStore Proofs.StatsAlloc Proofs.StatsBlocks.
 Local Open Scope N_scope.
 
 Theorem C05_admissible_meaning : forall durs sv,
@@ -311,3 +311,22 @@ Theorem C05_alloc_gate_rounds : forall rounds,
             end.
 Proof. exact alloc_gate_rounds. Qed.
 Print Assumptions C05_alloc_gate_rounds.
+
+(** Which allocation blocks the table shows.  [set_is_zero] models
+    [StatsSet<f64>::is_zero]: all four columns are 0 ([C05_is_zero_meaning]);
+    `max alloc:` is shown iff its size set is not zero, the block of an operation
+    iff its count set or its size set is not zero ([printed_blocks]).  For the
+    statistics [compute_stats] returns this is exactly: some recorded allocation
+    info has a non-zero figure of that kind ([blocks_spec]) — whichever samples
+    are fastest and slowest, so an allocation in an interior sample is shown. *)
+Theorem C05_is_zero_meaning : forall s,
+  set_is_zero s = true <->
+  xq_is_zero (fastest s) = true /\ xq_is_zero (slowest s) = true /\
+  xq_is_zero (median s) = true /\ xq_is_zero (mean s) = true.
+Proof. exact set_is_zero_spec. Qed.
+Print Assumptions C05_is_zero_meaning.
+
+Theorem C05_printed_blocks : forall dbg sv inp st,
+  compute_stats true dbg sv inp = Ok st -> printed_blocks st = blocks_spec inp.
+Proof. exact printed_blocks_spec. Qed.
+Print Assumptions C05_printed_blocks.
